@@ -73,18 +73,22 @@ def router(e3):
     build_b = [b for b in P.by_last["build"] if b.impl and b.impl[1] == "RouterBuilder"][0]
     ops = {k: [b for b in P.by_last[f"describe_{k.lower()}"] if b.impl and b.impl[1] == "Router"][0] for k in kinds}
     regs = {k: [b for b in P.by_last[f"register_{k.lower()}"] if b.impl and b.impl[1] == "Router"][0] for k in kinds}
-    for plens in ((1, 2), (2, 1), (1, 1), (2, 2)):
-        for kind in kinds:
-            p1 = [z3.BitVec(f"p1_{i}", 32) for i in range(plens[0])]
-            p2 = [z3.BitVec(f"p2_{i}", 32) for i in range(plens[1])]
+    for plens in ((1, 2), (2, 1), (1, 1), (2, 2), (1, 2, 2), (2, 1, 2)):
+        for kind in (kinds if len(plens) == 2 else kinds[:1]):
+            pats = [[z3.BitVec(f"p{r + 1}_{i}", 32) for i in range(plens[r])] for r in range(len(plens))]
+            p1, p2 = pats[0], pats[1]
             nm = [z3.BitVec(f"name_{i}", 32) for i in range(3)]
-            m1, m2 = z3.BitVec("mask1", 8), z3.BitVec("mask2", 8)
+            masks = [z3.BitVec(f"mask{r + 1}", 8) for r in range(len(plens))]
+            m1, m2 = masks[0], masks[1]
             valid_masks = lambda m: z3.Or(m == 1, m == 2, m == 4, m == 7)
-            base = [valid_masks(m1), valid_masks(m2)] + [z3.And(z3.UGE(c, 33), z3.ULE(c, 126)) for c in p1 + p2 + nm]
+            base = [valid_masks(m_) for m_ in masks] + [z3.And(z3.UGE(c, 33), z3.ULE(c, 126)) for c in sum(pats, []) + nm]
 
-            def on_model(ob, model, p1=p1, p2=p2, nm=nm, m1=m1, m2=m2, kind=kind):
-                inputs = {"mask1": model.eval(m1, model_completion=True).as_long(), "mask2": model.eval(m2, model_completion=True).as_long(), "op": OPS.index(f"describe_{kind.lower()}")}
-                inputs.update(text_inputs(model, "p1", p1)); inputs.update(text_inputs(model, "p2", p2)); inputs.update(text_inputs(model, "name", nm))
+            def on_model(ob, model, pats=pats, nm=nm, masks=masks, kind=kind):
+                inputs = {"op": OPS.index(f"describe_{kind.lower()}"), "nroutes": len(pats)}
+                for r in range(len(pats)):
+                    inputs[f"mask{r + 1}"] = model.eval(masks[r], model_completion=True).as_long()
+                    inputs.update(text_inputs(model, f"p{r + 1}", pats[r]))
+                inputs.update(text_inputs(model, "name", nm))
                 ob.sample = {k: (chr(v) if "_" in k and not k.endswith("_len") and k[0] in "pn" else v) for k, v in inputs.items()}
                 replay_native(ob, "c13_router", ob.name.split(":")[1], inputs)
 
@@ -131,6 +135,56 @@ def router(e3):
                 alts.append((z3.And(*[z3.Not(c) for kk, c in longer_match]) if longer_match else z3.BoolVal(True), Enum(0, {}, "Option")))
                 return Fork(alts)
 
+            def nibbles(chars):
+                out = []
+                for c in chars:
+                    out += [z3.Extract(7, 4, c), z3.Extract(3, 0, c)]
+                return out
+
+            def lcp(a, b):
+                """length (in nibbles) of the longest common prefix of two nibble sequences"""
+                t, run = z3.IntVal(0), z3.BoolVal(True)
+                for x, y in zip(a, b):
+                    run = z3.And(run, x == y)
+                    t = t + z3.If(run, 1, 0)
+                return t
+
+            def m_get_raw_ancestor(eng, ctx, f, path, args, dty):
+                """radix_trie (keys as nibble strings; the characters here are one byte each): a node exists for every stored key and at
+                every point where two stored keys part; the raw ancestor is the deepest node whose whole key is a prefix of the argument,
+                with or without a value"""
+                t = MC.load(eng, ctx, args[0])
+                key = MS.as_items(eng, ctx, args[1])
+                qn = nibbles(key)
+                ents = list(t.data)
+                cands = [(z3.BoolVal(True), z3.IntVal(0))]                      # the root
+                stored = []
+                for k, v in ents:
+                    c = is_prefix(k, key)
+                    cands.append((c, z3.IntVal(2 * len(k))))
+                    stored.append((c, 2 * len(k), v))
+                for i in range(len(ents)):
+                    for j in range(i + 1, len(ents)):
+                        ki, kj = nibbles(ents[i][0]), nibbles(ents[j][0])
+                        L = lcp(ki, kj)
+                        cands.append((lcp(ki, qn) >= L, L))
+                best = z3.IntVal(0)
+                for c, L in cands:
+                    best = z3.If(z3.And(c, L > best), L, best)
+                alts, none_of = [], []
+                for c, L, v in stored:
+                    hit = z3.And(c, best == L)
+                    alts.append((z3.And(hit, *[z3.Not(x) for x in none_of]), Native("subtrie", v)))
+                    none_of.append(hit)
+                alts.append((z3.And(*[z3.Not(x) for x in none_of]) if none_of else z3.BoolVal(True), Native("subtrie", None)))
+                return Fork(alts)
+
+            def m_subtrie_value(eng, ctx, f, path, args, dty):
+                st = MC.load(eng, ctx, args[0])
+                if st.data is None:
+                    return Enum(0, {}, "Option")
+                return Enum(1, {1: Agg({0: Ptr(("static", MC.new_cell(ctx, st.data, "trieval")))})}, "Option")
+
             def m_dyn_call(opname):
                 def h(eng, ctx, f, path, args, dty):
                     r = args[0]
@@ -154,7 +208,7 @@ def router(e3):
                  r"^Box::new$": models.m_identity, r"as AsRef>::as_ref$": lambda eng, ctx, f, path, args, dty: MC.load(eng, ctx, args[0]),
                  r"as ToString>::to_string$": lambda eng, ctx, f, path, args, dty: MS.sstr(MS.as_items(eng, ctx, args[0])),
                  r"Trie::insert$|radix_trie::trie::insert$": m_trie_insert, r"Trie::get_ancestor$|radix_trie::trie::get_ancestor$": m_get_ancestor,
-                 r"as TrieCommon>::value$": lambda eng, ctx, f, path, args, dty: Enum(1, {1: Agg({0: Ptr(("static", MC.new_cell(ctx, MC.load(eng, ctx, args[0]).data, "trieval")))})}, "Option"),
+                 r"as TrieCommon>::value$": m_subtrie_value, r"Trie::get_raw_ancestor$|radix_trie::trie::get_raw_ancestor$": m_get_raw_ancestor,
                  r"^<Vec as Deref>::deref$": lambda eng, ctx, f, path, args, dty: MC.load(eng, ctx, args[0]),
                  r"^core::slice::(.*::)?get_unchecked$": m_get_unchecked,
                  r"^KeyName::as_str$|^Key::name$": lambda eng, ctx, f, path, args, dty: MS.sstr(tuple(nm)),
@@ -170,8 +224,8 @@ def router(e3):
             def script():
                 rb0 = yield ("call", from_b, [Native("rec", 0)])
                 yield ("setstatic", "rb", rb0)
-                yield ("call", add_b, [Ptr(("static", "rb")), Agg({0: m1}), MS.sstr(tuple(p1)), Native("rec", 1)])
-                yield ("call", add_b, [Ptr(("static", "rb")), Agg({0: m2}), MS.sstr(tuple(p2)), Native("rec", 2)])
+                for r in range(len(pats)):
+                    yield ("call", add_b, [Ptr(("static", "rb")), Agg({0: masks[r]}), MS.sstr(tuple(pats[r])), Native("rec", r + 1)])
                 rb = yield ("getstatic", "rb")
                 router_v = yield ("call", build_b, [rb])
                 yield ("setstatic", "router", router_v)
@@ -182,24 +236,21 @@ def router(e3):
             done = [l for l in leaves if l.status == "done"]
             other = z3.Or(*[l.taken() for l in leaves if l.status != "done"] or [z3.BoolVal(False)])
             kbit = {"Counter": 1, "Gauge": 2, "Histogram": 4}[kind]
-            a1 = z3.And((m1 & kbit) != 0, is_prefix(p1, nm))
-            a2 = z3.And((m2 & kbit) != 0, is_prefix(p2, nm))
-            same = MS.text_eq(tuple(p1), tuple(p2)) if len(p1) == len(p2) else z3.BoolVal(False)
+            app = [z3.And((masks[r] & kbit) != 0, is_prefix(pats[r], nm)) for r in range(len(pats))]
             # reference: longest applicable prefix; an identical pattern added later replaces the earlier one for the kinds it covers
-            if len(p1) > len(p2):
-                want = z3.If(a1, 1, z3.If(a2, 2, 0))
-            elif len(p2) > len(p1):
-                want = z3.If(a2, 2, z3.If(a1, 1, 0))
-            else:
-                want = z3.If(z3.And(a2, z3.Or(same, z3.Not(a1))), 2, z3.If(a1, 1, z3.If(a2, 2, 0)))
+            # (two applicable patterns of one length are identical: both are prefixes of the name) -> longest first, later first
+            order_ = sorted(range(len(pats)), key=lambda r: (-len(pats[r]), -r))
+            want = z3.IntVal(0)
+            for r in reversed(order_):
+                want = z3.If(app[r], r + 1, want)
             bad = []
             for l in done:
                 dl = [(e.guard, pl["rec"]) for lab, e, pl in l.obs if lab == "delivered"]
                 n = z3.Sum(*[z3.If(g, 1, 0) for g, r in dl] + [z3.IntVal(0), z3.IntVal(0)])
                 right = z3.And(*[z3.Implies(g, z3.IntVal(r) == want) for g, r in dl]) if dl else z3.BoolVal(True)
                 bad.append(z3.And(l.taken(), z3.Not(z3.And(n == 1, right))))
-            cname = f"c13_router_{kind.lower()}_p{plens[0]}{plens[1]}"
-            bounds = (f"RouterBuilder: two add_route calls (masks among COUNTER/GAUGE/HISTOGRAM/ALL, patterns of {plens[0]} and {plens[1]} characters, symbolic), build, describe_{kind.lower()} "
+            cname = f"c13_router_{kind.lower()}_p{''.join(str(x) for x in plens)}"
+            bounds = (f"RouterBuilder: {len(plens)} add_route calls (masks among COUNTER/GAUGE/HISTOGRAM/ALL, patterns of {' / '.join(str(x) for x in plens)} characters, symbolic), build, describe_{kind.lower()} "
                       f"of a 3-character name; {len(done)} paths")
             specs = [dict(name=f"{cname}:witness", desc="completes", bounds=bounds, cons=base + [z3.Or(*[l.taken() for l in done] or [z3.BoolVal(False)])], expect_unsat=False),
                      dict(name=f"{cname}:returns", desc="panics or exceeds a loop bound", bounds=bounds, cons=base + [other], expect_unsat=True),
